@@ -244,7 +244,8 @@ func ValidateAttribute(key string, values []string) error {
 		return CheckServiceAccount(key, values)
 	case isEqual(key, attrSrcPrincipal):
 	case isEqual(key, attrSrcTrustDomain):
-		return CheckWildcardValues(key, values)
+		// same rule as from.source.trustDomains: a trust domain never contains '/'
+		return CheckTrustDomainValues(key, values)
 	case isEqual(key, attrRequestPrincipal):
 	case isEqual(key, attrRequestAudiences):
 	case isEqual(key, attrRequestPresenter):
